@@ -16,6 +16,10 @@ import (
 	"github.com/hashicorp/go-hclog"
 )
 
+// acceptRetryDelay is how long Run waits before it retries after a temporary
+// accept error.
+const acceptRetryDelay = 5 * time.Millisecond
+
 // Server is an ldap server that you can add a mux (multiplexer) router to and
 // then run it to accept and process requests.
 type Server struct {
@@ -186,6 +190,14 @@ func (s *Server) Run(addr string, opt ...Option) error {
 			if strings.Contains(err.Error(), "use of closed network connection") {
 				s.logger.Debug("accept on closed conn")
 				return nil
+			}
+			// a temporary condition (e.g. running out of file descriptors)
+			// must not stop the server from accepting connections for good
+			if ne, ok := err.(net.Error); ok && ne.Temporary() { //nolint:staticcheck
+				s.logger.Error("temporary error accepting conn; retrying", "op", op, "err", err.Error())
+				connID--
+				time.Sleep(acceptRetryDelay)
+				continue
 			}
 			return fmt.Errorf("%s: error accepting conn: %w", op, err)
 		}
